@@ -11,7 +11,7 @@
 (* written out for the real library.                                       *)
 (***************************************************************************)
 EXTENDS TabularRender, Json, CSV
-CONSTANTS Fmt, CellNames, MaxCols, MaxRows, AlignVals, DecorNames, HdrChoices, HtmlChoices, CheckWriter, GenFile
+CONSTANTS Fmt, CellNames, MaxCols, MaxRows, AlignVals, DecorNames, HdrChoices, HtmlChoices, CheckWriter, JsonVariant, GenFile
 VARIABLES st, hist, ph
 vars == <<st, hist, ph>>
 
@@ -107,6 +107,6 @@ Emit == GenFile = "" \/ ph' # "done" \/ CSVWrite("%1$s", <<ToJson(hist')>>, GenF
 
 Inv == /\ Inv_C02(st)
        /\ (ph = "render" /\ Fmt = "text") => EmitTextOK(st, 1, st.wr[1].dec)
-       /\ (ph = "render" /\ Fmt # "text") => EmitOK(st, 1, Fmt)
+       /\ (ph = "render" /\ Fmt # "text") => EmitOKV(st, 1, Fmt, JsonVariant)
        /\ (ph = "render" /\ CheckWriter) => WriterOK(st, 1, Fmt, st.wr[1].dec)
 =============================================================================
